@@ -48,7 +48,7 @@ fn complete_prefix(case: &ConvCase, rd: &vcore::wire::Rendered, k: usize) -> usi
     let mut n = 0;
     for (i, r) in rd.ranges.iter().enumerate() {
         let rq = &case.conv.reqs[i];
-        let upgrades = rq.headers.iter().any(|h| h.name.eq_ignore_ascii_case("connection") && h.value.to_ascii_lowercase().contains("upgrade"));
+        let upgrades = rq.headers.iter().find(|h| h.name.eq_ignore_ascii_case("connection")).map(|h| h.value.to_ascii_lowercase().contains("upgrade")).unwrap_or(false);
         let buffered = matches!(rq.framing, vcore::wire::Framing::Length { n } if n > 0 && n <= 1024) && !rq.expects_continue() && !upgrades;
         let need = if buffered { r.end } else { r.head_end };
         if need <= k {
